@@ -64,7 +64,10 @@ def gen_cases(ctx, return_logprobs=False, n_cases=None):
         maxpost = [None, 1, 2, int(rng.integers(1, n + 2)), n + 7][int(rng.integers(0, 5))]
         n_prior = None if (path == "inmem" or rng.random() < 0.5) else int(rng.integers(1, n + 1))
         warm = driver == "api" and path == "inmem" and k % 12 == 5
-        cases.append(dict(warm=warm, n=n, kind=kind, seed=int(rng.integers(0, 2**31)), path=path, driver=driver, maxpost=maxpost, n_prior=n_prior,
+        f32lib = driver == "stub" and k % 8 == 3  # an all-single-precision library (every second one of them in memory)
+        if f32lib and k % 16 == 3:
+            path, n_prior = "inmem", None
+        cases.append(dict(warm=warm, f32lib=f32lib, n=n, kind=kind, seed=int(rng.integers(0, 2**31)), path=path, driver=driver, maxpost=maxpost, n_prior=n_prior,
                           n_linear=int(rng.integers(1, 4)), randomize=bool(rng.random() < 0.5),
                           n_batches=[None, 1, 3, n + 1][int(rng.integers(0, 4))], return_logprobs=return_logprobs))
     return cases
@@ -75,16 +78,27 @@ def run_impl(ctx, case):
     from thejoker.thejoker import TheJoker
 
     n = case["n"]
-    lib = S.make_library(n, seed=case["seed"] % 1000, with_lnprior=True, alt_units=case["seed"] % 3 == 0 or bool(case.get("warm")))
+    lib = S.make_library(n, seed=case["seed"] % 1000, with_lnprior=True, alt_units=(case["seed"] % 3 == 0 or bool(case.get("warm"))) and not case.get("f32lib"))
     if case["seed"] % 5 == 0:
         # a library whose period column is single precision (its values 2 + i/256 are exact in float32) next to double-precision columns:
         # the other columns must come back bit for bit
         lib["P"] = lib["P"].astype(np.float32)
+    if case.get("f32lib"):
+        # an all-single-precision library (what prior.sample(dtype=np.float32) gives; every value here is exact in float32) in the
+        # kernel's own units, so that no single-precision unit conversion is involved: rows come back with their own values and the
+        # reported log-probabilities are the double-precision values computed for them
+        for nm in lib.par_names:
+            lib[nm] = lib[nm].astype(np.float32)
     rec = S.RecGen(case["seed"])
     joker = TheJoker(real_prior(), rng=rec)
     stub = None
     if case["driver"] == "stub":
-        stub = S.StubHelper(S.profile(case["kind"], n, np.random.default_rng(case["seed"] + 1)))
+        prof_ = S.profile(case["kind"], n, np.random.default_rng(case["seed"] + 1))
+        if lib["P"].dtype == np.float32 and lib["e"].dtype == np.float32:
+            # with a single-precision library the likelihoods are shifted by a constant that single precision cannot hold (same
+            # decisions, same ties): a value that went through float32 on its way to the caller is no longer the value computed
+            prof_ = np.where(np.isfinite(prof_), prof_ + 2.0**-30, prof_)
+        stub = S.StubHelper(prof_)
         joker._make_joker_helper = lambda data: stub
         data = None
     else:
